@@ -240,6 +240,14 @@ where
         self.inner.2.read().unwrap().len_outbound() + self.inner.2.read().unwrap().len_inbound()
     }
 
+    /// Number of incident edges that this node created itself with `connect` or
+    /// `try_connect`. They are the first entries produced by `iter()`; the remaining
+    /// `degree() - created_degree()` edges were created by the peers. Used to list every
+    /// edge exactly once, from the endpoint that created it.
+    pub(crate) fn created_degree(&self) -> usize {
+        self.inner.2.read().unwrap().len_outbound()
+    }
+
     /// Connects this node to another node. The connection is created in both
     /// directions. The connection is created with the given edge value and
     /// defaults to `()`. This function allows for creating multiple
